@@ -182,9 +182,13 @@ func ruleRETPAIR(c *Ctx, r *Report) {
 	add(dr.SerParam)
 	add(dr.RangeParam)
 	add(dr.LikeParam)
+	nonEmptyFns := map[*ssa.Function]bool{}
 	if pt := c.pgTable(); pt.Err == "" {
 		for _, e := range pt.Eff {
 			add(e.Fn)
+			if e.Fn != nil {
+				nonEmptyFns[e.Fn] = true
+			}
 		}
 	} else {
 		r.bad(rule, "pgtable", "-", pt.Err)
@@ -257,6 +261,10 @@ func ruleRETPAIR(c *Ctx, r *Report) {
 			pos := c.instrPos(p.Ret)
 			switch cls {
 			case "nil":
+				if sv, isC := constStringVal(c.resolve(val, p.Env)); isC && sv == "" && nonEmptyFns[f] && !hasAtom(p.Atoms, "$1==nil") {
+					r.bad(rule, key+"|empty-success", pos, fmt.Sprintf("%s can return the empty string with a nil error: ToPostgres would hand back an empty filter as a success", fnName(f)))
+					continue
+				}
 				r.ok(rule, key+"|ok", pos, "error is nil on this path")
 			case "nonnil", "unknown":
 				if c.isZeroVal(p, val) {
